@@ -16,13 +16,62 @@ def ev(e, rule_slots, k, seg):   # evaluate expr with slot refs relative to item
     def S(off):
         return rule_slots[k+off]
     if t=='const': return e[1]
-    if t=='gattr': return seg['glyphs'][S(e[1])['gid0']].get('attrs',{}).get(str(e[2]),0) if False else seg['gattr'](S(e[1]).gid_in, e[2])
+    if t=='gattr': return seg['glyphs'][S(e[1])['gid0']].get('attrs',{}).get(str(e[2]),0) if False else seg['gattr'](S(e[1]).gid, e[2])
     if t=='uattr': return S(e[1]).user[e[2]] if e[2]<len(S(e[1]).user) else 0
     if t=='feat': return seg['feat'](e[2])
     if t=='not': return 0 if ev(e[1],rule_slots,k,seg) else 1
     a=ev(e[1],rule_slots,k,seg); b=ev(e[2],rule_slots,k,seg)
     w=lambda x:((x+2**31)%2**32)-2**31
     return {'eq':int(a==b),'ne':int(a!=b),'lt':int(a<b),'gt':int(a>b),'le':int(a<=b),'ge':int(a>=b),'and':int(bool(a) and bool(b)),'or':int(bool(a) or bool(b)),'add':w(a+b),'sub':w(a-b),'mul':w(a*b)}[t]
+def _expr_refs(e, out):
+    t=e[0]
+    if t in ('gattr','uattr','feat','sattr'): out.append(e[1])
+    elif t in ('not','neg'): _expr_refs(e[1],out)
+    elif t!='const': _expr_refs(e[1],out); _expr_refs(e[2],out)
+def temp_copied(rule, pre, L):
+    """Which items of the rule does the loader snapshot before their actions run (Appendix B rule 4, transcribed from the
+    loader's analysis): an item is *changed* by assoc, put_glyph, put_subs and put_copy (non-zero offset) executed on it - and,
+    a quirk, the item before an insertion is marked changed by the inserted slot's glyph/assoc actions - and *referenced* when
+    put_subs / put_copy / an attribute expression executed at that item or a later one names it (marks made on an item before
+    the cursor reaches it are discarded).  Changed and referenced => references to it read the snapshot, otherwise the live slot."""
+    key='_tc_%d_%d'%(pre,L)
+    if key in rule: return rule[key]
+    n=L-pre; ctx={}
+    def C(i): return ctx.setdefault(i,{'ch':False,'ref':False})
+    def mark(acts, slotref):
+        for a in acts:
+            k_=a[0]
+            if k_ in ('assoc','put_glyph'):
+                if slotref>=0: C(slotref)['ch']=True
+            elif k_=='put_subs':
+                if slotref>=0: C(slotref)['ch']=True
+                if slotref+a[1]>=0: C(slotref+a[1])['ref']=True
+            elif k_=='put_copy':
+                if a[1]!=0 and slotref>=0: C(slotref)['ch']=True
+                if slotref+a[1]>=0: C(slotref+a[1])['ref']=True
+            elif k_ in ('attr','attr_add','user','setfeat','iattr'):
+                refs=[]; _expr_refs(a[2] if k_!='iattr' else a[3],refs)
+                for o in refs:
+                    if slotref+o>=0: C(slotref+o)['ref']=True
+    ctx[0]={'ch':False,'ref':False}
+    for c in range(n):
+        acts=rule['acts'][c]
+        if acts and acts[0][0]=='insert':
+            j=1
+            while j<len(acts) and acts[j][0]!='endins': j+=1
+            # inside the inserted slot's code the decoder's slot counter is one lower and the compiler added 1 to every offset
+            ins=[]
+            for a in acts[1:j]:
+                if a[0] in ('put_subs','put_copy'): ins.append((a[0],a[1]+1)+tuple(a[2:]))
+                else: ins.append(a)
+            mark(ins, c-1)
+            ctx[c]={'ch':False,'ref':False}          # the NEXT that ends the inserted slot re-creates this item's context
+            acts=acts[j+1:]
+        mark(acts, c)
+        ctx[c+1]={'ch':False,'ref':False}
+    res=[False]*pre+[bool(ctx.get(c,{}).get('ch') and ctx.get(c,{}).get('ref')) for c in range(n)]
+    rule[key]=res
+    return res
 def shape(spec, gids, feats=None, trace=None, textdir=0):
     gl=spec['glyphs']; nuser=spec.get('user',0)
     def gattr(g,a):
@@ -65,6 +114,12 @@ def shape(spec, gids, feats=None, trace=None, textdir=0):
             if trace is not None: trace.append((pi,fired,i))
             snap=[copy.copy(s) for s in rs]; rs_live=list(rs)
             for s_,c_ in zip(snap,rs): s_.user=list(c_.user)
+            tc=temp_copied(r,pre,L)
+            class View:
+                # what a slot reference made from inside the rule sees: the snapshot for temp-copied items, else the live slot
+                def __getitem__(self,w): return snap[w] if tc[w] else rs_live[w]
+                def __len__(self): return L
+            view=View()
             cur=i       # index in stream of current item
             for k in range(pre,L):
                 acts=r['acts'][k-pre]
@@ -91,11 +146,11 @@ def shape(spec, gids, feats=None, trace=None, textdir=0):
                     if a[0]=='put_glyph':
                         cl=spec['classes'][a[1]]; g=cl[0] if cl else 0; setglyph(tgt,g,gl)
                     elif a[0]=='put_subs':
-                        src=snap[k+a[1]]; icl=spec['classes'][a[2]]; ocl=spec['classes'][a[3]]
+                        src=view[k+a[1]]; icl=spec['classes'][a[2]]; ocl=spec['classes'][a[3]]
                         idx=icl.index(src.gid) if src.gid in icl else None
                         g=ocl[idx] if (idx is not None and idx<len(ocl)) else 0; setglyph(tgt,g,gl)
                     elif a[0]=='put_copy':
-                        src=snap[k+a[1]]
+                        src=view[k+a[1]]
                         if src is not None and not (tgt is rs[k+a[1]] if 0<=k+a[1]<L else False):
                             for f in ('gid','adv','advy','sx','sy','ax','ay','wx','wy','before','after','orig'): setattr(tgt,f,getattr(src,f))
                             tgt.user=list(src.user)
@@ -104,10 +159,10 @@ def shape(spec, gids, feats=None, trace=None, textdir=0):
                             hw=stream[cur+1] if cur+1<len(stream) else None; hp=False
                         stream.pop(cur); tgt='deleted'
                     elif a[0]=='assoc':
-                        bs=[snap[k+o].before for o in a[1]]; as_=[snap[k+o].after for o in a[1]]
+                        bs=[view[k+o].before for o in a[1]]; as_=[view[k+o].after for o in a[1]]
                         tgt.before=min(bs); tgt.after=max(as_)
                     elif a[0]=='attr':
-                        v=s16(ev(a[2],snap,k,seg))
+                        v=s16(ev(a[2],view,k,seg))
                         if a[1]=='AdvX': tgt.adv=v
                         elif a[1]=='ShiftX': tgt.sx=v
                         elif a[1]=='ShiftY': tgt.sy=v
@@ -131,7 +186,7 @@ def shape(spec, gids, feats=None, trace=None, textdir=0):
                                 if (fontdir!=0) ^ ((k+a[1])>k): tgt.wx=tgt.adv; tgt.wy=0
                                 else: tgt.ax=other.adv; tgt.ay=0
                     elif a[0]=='user':
-                        tgt.user[a[1]]=s16(ev(a[2],snap,k,seg))
+                        tgt.user[a[1]]=s16(ev(a[2],view,k,seg))
                 if tgt=='deleted':
                     isl=stream[cur-1] if cur>0 else None      # 'is' after DELETE = previous slot (or the dead slot)
                     if isl is not None and isl is hw: hp=True
